@@ -19,25 +19,53 @@ open AgModel.Pad AgModel.Merkle
 /-- the commitment a shred claims: its header fields and the root derived from payload, index and path -/
 def Shred.claimed (env : Env) (s : Shred) : Commitment := commit s.header (s.sliceRoot env)
 
+/-- `try_new` is the pinned `try_new` behind the index guard -/
+theorem validate_of_consumed (env : Env) (s : Shred) (cached : Option Commitment) (pk : Nat)
+    (h : s.indexConsumed = true) : validate env s cached pk = validateOld env s cached pk := by
+  unfold validate; simp [h]
+
+/-- **An index the Merkle path does not consume is rejected** (D32 `fix:`), with or without cached commitment,
+    whatever the signature: never accepted and never reported as equivocation of the leader. -/
+theorem index_not_consumed_rejected (env : Env) (s : Shred) (cached : Option Commitment) (pk : Nat)
+    (h : s.indexConsumed = false) : validate env s cached pk = .error .invalidSignature := by
+  unfold validate; simp [h]
+
+/-- whatever is accepted has an index inside the width `2 ^ path length` of the tree its path describes -/
+theorem accepted_index_consumed (env : Env) (s : Shred) (cached : Option Commitment) (pk : Nat) (x : VShred)
+    (h : validate env s cached pk = .ok x) : s.indexConsumed = true ∧ s.index < 2 ^ s.path.length := by
+  cases hc : s.indexConsumed with
+  | false => rw [index_not_consumed_rejected env s cached pk hc] at h; cases h
+  | true =>
+    refine ⟨rfl, ?_⟩
+    simp only [Shred.indexConsumed, decide_eq_true_eq] at hc
+    exact (Nat.div_eq_zero_iff_lt (Nat.two_pow_pos _)).mp hc
+
 /-- **Accepted only if the leader signed exactly this slot, slice index, last flag and root.** Without a
-    cached commitment a shred is accepted iff its signature is the leader key's signature over exactly
-    (slot, slice index, last-slice flag, root derived from its payload, index and path). -/
+    cached commitment a shred is accepted iff its index is consumed by its path and its signature is the leader
+    key's signature over exactly (slot, slice index, last-slice flag, root derived from its payload, index and path). -/
 theorem accept_iff_signed (env : Env) (s : Shred) (pk : Nat) (v : VShred) :
-    validate env s none pk = .ok v ↔ (s.sig = .signed pk (s.claimed env) ∧ v = ⟨s, s.sliceRoot env⟩) := by
-  unfold validate Sig.verify Shred.claimed
-  by_cases h : s.sig = .signed pk (commit s.header (s.sliceRoot env))
-  · simp only [h, decide_true, if_true, Except.ok.injEq, true_and]; exact eq_comm
-  · simp [h]
+    validate env s none pk = .ok v ↔
+      (s.indexConsumed = true ∧ s.sig = .signed pk (s.claimed env) ∧ v = ⟨s, s.sliceRoot env⟩) := by
+  cases hc : s.indexConsumed with
+  | false => rw [index_not_consumed_rejected env s none pk hc]; simp
+  | true =>
+    rw [validate_of_consumed env s none pk hc]
+    unfold validateOld Sig.verify Shred.claimed
+    by_cases h : s.sig = .signed pk (commit s.header (s.sliceRoot env))
+    · simp only [h, decide_true, if_true, Except.ok.injEq, true_and]; exact eq_comm
+    · simp [h]
 
 /-- **A cached commitment only ever shortcuts verification of an identical commitment**: with a cached
-    commitment `c` a shred is accepted iff the commitment it claims *is* `c` (then the signature is not
-    looked at); otherwise the verdict is `Equivocation` iff the leader key signed the claimed commitment
-    (two different validly signed commitments), and `InvalidSignature` iff it did not — never acceptance. -/
-theorem cache_only_identical (env : Env) (s : Shred) (c : Commitment) (pk : Nat) :
+    commitment `c` a shred (whose index its path consumes - otherwise `index_not_consumed_rejected`) is accepted
+    iff the commitment it claims *is* `c` (then the signature is not looked at); otherwise the verdict is
+    `Equivocation` iff the leader key signed the claimed commitment (two different validly signed commitments),
+    and `InvalidSignature` iff it did not — never acceptance. -/
+theorem cache_only_identical (env : Env) (s : Shred) (c : Commitment) (pk : Nat) (hcons : s.indexConsumed = true) :
     (s.claimed env = c → validate env s (some c) pk = .ok ⟨s, s.sliceRoot env⟩) ∧
     (s.claimed env ≠ c → s.sig = .signed pk (s.claimed env) → validate env s (some c) pk = .error .equivocation) ∧
     (s.claimed env ≠ c → s.sig ≠ .signed pk (s.claimed env) → validate env s (some c) pk = .error .invalidSignature) := by
-  unfold validate Sig.verify Shred.claimed
+  rw [validate_of_consumed env s (some c) pk hcons]
+  unfold validateOld Sig.verify Shred.claimed
   refine ⟨?_, ?_, ?_⟩
   · intro h; simp [h]
   · intro h1 h2; simp [h2, Ne.symm h1]
@@ -48,18 +76,22 @@ theorem cache_only_identical (env : Env) (s : Shred) (c : Commitment) (pk : Nat)
 theorem equivocation_only_if_two_signed (env : Env) (s : Shred) (cached : Option Commitment) (pk : Nat)
     (h : validate env s cached pk = .error .equivocation) :
     ∃ c, cached = some c ∧ c ≠ s.claimed env ∧ s.sig = .signed pk (s.claimed env) := by
-  unfold validate Sig.verify Shred.claimed at *
-  cases cached with
-  | none => simp only at h; split at h <;> simp at h
-  | some c =>
-    refine ⟨c, rfl, ?_⟩
-    simp only at h
-    split at h
-    · simp at h
-    · rename_i hne
+  cases hc : s.indexConsumed with
+  | false => rw [index_not_consumed_rejected env s cached pk hc] at h; cases h
+  | true =>
+    rw [validate_of_consumed env s cached pk hc] at h
+    unfold validateOld Sig.verify Shred.claimed at *
+    cases cached with
+    | none => simp only at h; split at h <;> simp at h
+    | some c =>
+      refine ⟨c, rfl, ?_⟩
+      simp only at h
       split at h
-      · rename_i hs; exact ⟨hne, by simpa using hs⟩
       · simp at h
+      · rename_i hne
+        split at h
+        · rename_i hs; exact ⟨hne, by simpa using hs⟩
+        · simp at h
 
 /-- **Replay / header mutation is rejected**: a signature of the leader over commitment `c` makes a shred
     acceptable only for exactly `c`'s slot, slice index, last flag and root. Altering any of them (or
@@ -70,69 +102,94 @@ theorem replay_rejected (env : Env) (s : Shred) (pk : Nat) (c : Commitment) (cac
     (hmut : s.header.slot ≠ c.slot ∨ s.header.sliceIdx ≠ c.sliceIdx ∨ s.header.isLast ≠ c.isLast ∨ s.sliceRoot env ≠ c.root)
     (hcache : cached ≠ some (s.claimed env)) :
     validate env s cached pk = .error .invalidSignature := by
-  have hne : Sig.signed pk c ≠ .signed pk (commit s.header (s.sliceRoot env)) := by
-    intro h
-    injection h with _ h
-    subst h
-    simp [commit] at hmut
-  unfold validate Sig.verify
-  cases cached with
-  | none => simp [hsig, hne]
-  | some c' =>
-    have : c' ≠ commit s.header (s.sliceRoot env) := by
-      intro h; apply hcache; rw [h]; rfl
-    simp [hsig, hne, this]
+  cases hc : s.indexConsumed with
+  | false => exact index_not_consumed_rejected env s cached pk hc
+  | true =>
+    rw [validate_of_consumed env s cached pk hc]
+    have hne : Sig.signed pk c ≠ .signed pk (commit s.header (s.sliceRoot env)) := by
+      intro h
+      injection h with _ h
+      subst h
+      simp [commit] at hmut
+    unfold validateOld Sig.verify
+    cases cached with
+    | none => simp [hsig, hne]
+    | some c' =>
+      have : c' ≠ commit s.header (s.sliceRoot env) := by
+        intro h; apply hcache; rw [h]; rfl
+      simp [hsig, hne, this]
 
-/-! ### binding to the position inside a correct leader's slice -/
+/-! ### binding to the position inside the signed tree -/
 
-/-- **The payload at the shred index is proven under the signed root.** If a shred with index < 64 derives
-    the root of a correct leader's slice (any of the four shredders), then its payload is exactly the
-    leader's shard at that index and its Merkle path is exactly the leader's: together with the header it
-    is the leader's shred, except possibly for the data/coding tag (which neither the signature nor the
-    Merkle leaf covers — defect D15). Any altered payload byte, proof element, proof length or index
-    therefore changes the derived root. -/
-theorem root_binds_position (env : Env) (L : env.Laws) (v : Variant) (sl : Slice) (sk : Nat) (key : Bytes)
-    (s : Shred) (hidx : s.index < TOTAL) (hroot : s.sliceRoot env = (leaderTree env v sl key).root) :
+/-- **The payload at the shred index is proven under the signed root - for a tree of every height.** Let the root
+    a shred derives be the root of *any* Merkle tree (`leaves`: 1 .. 2^32 shards, whatever a leader may sign: 64
+    as the shredders do, 2, 65, …). If the shred's path consumes its index (which `try_new` demands since the
+    D32 fix: `accepted_index_consumed`), then the path has exactly the tree's height, the index lies inside the
+    tree's width, the payload is the leaf at that very index (the empty padding leaf beyond the real leaves) and,
+    for an index below the number of leaves, payload and path are exactly the shard and the proof the tree creates
+    for that index. So a shred cannot be relabelled `j ↦ j + k * 2^h`, a path element / the path length / a payload
+    byte cannot be altered, without changing the derived root. (On the pinned snapshot this held only when the tree
+    had height 6: `index_alias_old_witness`.) -/
+theorem root_binds_position (env : Env) (L : env.Laws) (leaves : List Bytes) (hne : leaves ≠ [])
+    (hn : leaves.length ≤ 2 ^ 32) (s : Shred) (hcons : s.indexConsumed = true)
+    (hroot : s.sliceRoot env = (Tree.new (leaves.map env.leafId)).root) :
+    s.path.length = (Tree.new (leaves.map env.leafId)).height ∧
+    s.index < 2 ^ (Tree.new (leaves.map env.leafId)).height ∧
+    env.leafId s.data = (leaves.map env.leafId).getD s.index 0 ∧
+    (∀ hi : s.index < leaves.length,
+      s.data = leaves[s.index] ∧ s.path = (Tree.new (leaves.map env.leafId)).createProof s.index) := by
+  have hne' : leaves.map env.leafId ≠ [] := by simpa using hne
+  have hn' : (leaves.map env.leafId).length ≤ 2 ^ 32 := by simpa using hn
+  -- the derivation reaches the root of the perfect tree over the padded leaves
+  have hr : (deriveRootIdx (.leaf (env.leafId s.data)) s.index s.path).1
+      = specG 0 (Tree.new (leaves.map env.leafId)).height ((leaves.map env.leafId).map H.leaf) := by
+    rw [← new_eq_spec _ hne', ← hroot]; rfl
+  obtain ⟨hplen, _⟩ := derive_sound _ _
+    (by intro y hy; simp at hy; obtain ⟨a, _, rfl⟩ := hy; trivial) (.leaf (env.leafId s.data)) trivial s.index s.path hr
+  have hh : (Tree.new (leaves.map env.leafId)).height ≤ 32 := by
+    rw [new_def]; exact WF.height_le _ 32 hn'
+  -- hence `check_proof` (index exhausted, length bound, root) holds, and C15 soundness / uniqueness apply
+  have hc1 : checkProof (env.leafId s.data) s.index (Tree.new (leaves.map env.leafId)).root s.path = true := by
+    unfold checkProof checkHashProof
+    simp only [Bool.and_eq_true, decide_eq_true_eq]
+    refine ⟨⟨?_, ?_⟩, by rw [← hroot]; rfl⟩
+    · rw [hplen]; have : maxHeight = 32 := by decide
+      omega
+    · rw [deriveRootIdx_snd]; simpa [Shred.indexConsumed] using hcons
+  obtain ⟨h1, h2, h3⟩ := sound _ hne' _ _ _ hc1
+  refine ⟨h1, h2, h3, ?_⟩
+  intro hi
+  have hi' : s.index < (leaves.map env.leafId).length := by simpa using hi
+  have hdata : s.data = leaves[s.index] := by
+    simp [List.getD_eq_getElem?_getD, List.getElem?_map, List.getElem?_eq_getElem hi] at h3
+    exact L.leafId_inj _ _ h3
+  have hc2 := complete (leaves.map env.leafId) s.index hi' hn'
+  obtain ⟨_, hpath⟩ := proof_unique _ hne' _ _ _ _ _ hc1 hc2
+  exact ⟨hdata, hpath⟩
+
+/-- the same for a correct leader's slice (any of the four shredders: 64 shards, height 6): a shred whose path
+    consumes its index and that derives the leader's root *is*, in payload and path, the leader's shred at that
+    index - and the index is below 64 (no longer a hypothesis: the bound of the wire format is not needed). -/
+theorem root_binds_leader_position (env : Env) (L : env.Laws) (v : Variant) (sl : Slice) (sk : Nat) (key : Bytes)
+    (s : Shred) (hcons : s.indexConsumed = true) (hroot : s.sliceRoot env = (leaderTree env v sl key).root) :
+    s.index < TOTAL ∧
     ∃ l, (leaderOut env v sl sk key)[s.index]? = some l ∧ s.data = l.shred.data ∧ s.path = l.shred.path := by
   have hlen := rawsOf_length env (coderPayload env v key (payloadBytes sl.parent sl.data)) v.nData L (nData_le v)
   generalize hraws : rawsOf env (coderPayload env v key (payloadBytes sl.parent sl.data)) v.nData = raws at *
   have hT : leaderTree env v sl key = Tree.new (raws.map env.leafId) := by unfold leaderTree; rw [hraws]
-  rw [TOTAL_eq] at hidx
-  have hne : raws.map env.leafId ≠ [] := by
+  have hne : raws ≠ [] := by
     intro h; have := congrArg List.length h; simp [hlen] at this
-  have hl64 : (raws.map env.leafId).length = 64 := by rw [List.length_map, hlen]
-  -- height of the tree is 6
-  have hh : (Tree.new (raws.map env.leafId)).height = 6 := by
-    have h1 : (Tree.new (raws.map env.leafId)).height ≤ 6 := by
-      rw [new_def]; exact WF.height_le _ 6 (by rw [hl64]; decide)
-    have h2 : ((raws.map env.leafId).map H.leaf).length ≤ 2 ^ (Tree.new (raws.map env.leafId)).height := by
-      rw [new_def]; exact buildLevelsWF_width 0 _
-    rw [List.length_map, hl64] at h2
-    generalize (Tree.new (raws.map env.leafId)).height = h at *
-    have : h = 0 ∨ h = 1 ∨ h = 2 ∨ h = 3 ∨ h = 4 ∨ h = 5 ∨ h = 6 := by omega
-    rcases this with rfl | rfl | rfl | rfl | rfl | rfl | rfl <;> simp at h2 ⊢
-  -- soundness of the derivation
-  have hr : (deriveRootIdx (.leaf (env.leafId s.data)) s.index s.path).1
-      = specG 0 (Tree.new (raws.map env.leafId)).height ((raws.map env.leafId).map H.leaf) := by
-    rw [← new_eq_spec _ hne, ← hT, ← hroot]; rfl
-  obtain ⟨hplen, hx⟩ := derive_sound _ _
-    (by intro y hy; simp at hy; obtain ⟨a, _, rfl⟩ := hy; trivial) (.leaf (env.leafId s.data)) trivial s.index s.path hr
-  rw [hh] at hplen hx
-  have hmod : s.index % 2 ^ 6 = s.index := Nat.mod_eq_of_lt (by omega)
-  rw [hmod] at hx
+  rw [hT] at hroot
+  obtain ⟨_, h2, _, h4⟩ := root_binds_position env L raws hne (by rw [hlen]; decide) s hcons hroot
+  -- the height of a 64-leaf tree is at most 6
+  have hh : (Tree.new (raws.map env.leafId)).height ≤ 6 := by
+    rw [new_def]; exact WF.height_le _ 6 (by rw [List.length_map, hlen]; decide)
+  have hidx : s.index < 64 := by
+    have : 2 ^ (Tree.new (raws.map env.leafId)).height ≤ 2 ^ 6 := Nat.pow_le_pow_right (by decide) hh
+    omega
   have hi : s.index < raws.length := by omega
-  have hdata : s.data = raws[s.index] := by
-    simp [List.getD_eq_getElem?_getD, List.getElem?_map, List.getElem?_eq_getElem hi] at hx
-    exact L.leafId_inj _ _ hx
-  -- uniqueness of the path
-  have hc1 : checkProof (env.leafId s.data) s.index (Tree.new (raws.map env.leafId)).root s.path = true := by
-    unfold checkProof checkHashProof
-    simp only [Bool.and_eq_true, decide_eq_true_eq]
-    refine ⟨⟨by rw [hplen]; decide, ?_⟩, by rw [← hT, ← hroot]; rfl⟩
-    rw [deriveRootIdx_snd, hplen]; omega
-  have hc2 := complete (raws.map env.leafId) s.index (by omega) (by rw [hl64]; decide)
-  obtain ⟨_, hpath⟩ := proof_unique _ hne _ _ _ _ _ hc1 hc2
-  refine ⟨mkShred sl.header v.nData (leaderTree env v sl key) (.signed sk (commit sl.header (leaderTree env v sl key).root)) s.index raws[s.index], ?_, ?_, ?_⟩
+  obtain ⟨hdata, hpath⟩ := h4 hi
+  refine ⟨by rw [TOTAL_eq]; exact hidx, mkShred sl.header v.nData (leaderTree env v sl key) (.signed sk (commit sl.header (leaderTree env v sl key).root)) s.index raws[s.index], ?_, ?_, ?_⟩
   · unfold leaderOut
     rw [hraws, mkAll_getElem?, List.getElem?_eq_getElem hi]; simp
   · simp [mkShred, hdata]
@@ -141,23 +198,25 @@ theorem root_binds_position (env : Env) (L : env.Laws) (v : Variant) (sl : Slice
 /-- **Mutations of a valid shred are rejected** (single-field and combined): whatever is accepted — without
     cache, or with the slice's cached commitment — under a correct leader's key and that leader's signature for
     the slice is the leader's own shred at that index: same slot, slice index, last flag, payload bytes and
-    Merkle path. Only the data/coding tag may differ (defect D15). Full statement (fails only for the tag):
-    `… → s = l.shred`. -/
+    Merkle path, at an index below 64 (a conclusion since the D32 fix, not a hypothesis). Only the data/coding tag
+    may differ (defect D15). Full statement (fails only for the tag): `… → s = l.shred`. -/
 theorem accepted_is_leader_shred_partial (env : Env) (L : env.Laws) (v : Variant) (sl : Slice) (sk : Nat) (key : Bytes)
-    (s : Shred) (x : VShred) (hidx : s.index < TOTAL)
+    (s : Shred) (x : VShred)
     (cached : Option Commitment) (hcache : cached = none ∨ cached = some (commit sl.header (leaderTree env v sl key).root))
     (hsig : s.sig = .signed sk (commit sl.header (leaderTree env v sl key).root))
     (hok : validate env s cached sk = .ok x) :
+    s.index < TOTAL ∧
     ∃ l, (leaderOut env v sl sk key)[s.index]? = some l ∧ s = { l.shred with isData := s.isData } ∧
       x = ⟨s, (leaderTree env v sl key).root⟩ := by
+  obtain ⟨hcons, _⟩ := accepted_index_consumed env s cached sk x hok
   have hclaim : s.claimed env = commit sl.header (leaderTree env v sl key).root ∧ x = ⟨s, s.sliceRoot env⟩ := by
     rcases hcache with rfl | rfl
-    · obtain ⟨h1, h2⟩ := (accept_iff_signed env s sk x).mp hok
+    · obtain ⟨_, h1, h2⟩ := (accept_iff_signed env s sk x).mp hok
       rw [hsig] at h1
       injection h1 with _ h1
       exact ⟨h1.symm, h2⟩
     · by_cases hc : s.claimed env = commit sl.header (leaderTree env v sl key).root
-      · have := (cache_only_identical env s _ sk).1 hc
+      · have := (cache_only_identical env s _ sk hcons).1 hc
         rw [this] at hok
         injection hok with hok
         exact ⟨hc, hok.symm⟩
@@ -177,9 +236,9 @@ theorem accepted_is_leader_shred_partial (env : Env) (L : env.Laws) (v : Variant
   obtain ⟨hc, hx⟩ := hclaim
   unfold Shred.claimed commit at hc
   injection hc with h1 h2 h3 h4
-  obtain ⟨l, hl, hd, hp⟩ := root_binds_position env L v sl sk key s hidx h4
+  obtain ⟨hidx, l, hl, hd, hp⟩ := root_binds_leader_position env L v sl sk key s hcons h4
   obtain ⟨_, hli, hlh, _, hls, _, _⟩ := leaderOut_get env v sl sk key s.index l hl
-  refine ⟨l, hl, ?_, by rw [hx, h4]⟩
+  refine ⟨hidx, l, hl, ?_, by rw [hx, h4]⟩
   have hhdr : s.header = sl.header := by
     cases hs : s.header; cases hsl : sl.header
     simp only [hs, hsl] at h1 h2 h3
@@ -357,10 +416,11 @@ theorem gate_honest_never_flagged_partial (C : Nat → Commitment) (last : Optio
     commitment of that slot and slice, `handle_disseminator_shred` flags the leader (the snapshot dropped the
     `Equivocation` verdict of `try_new` silently, so at node level the conflict was never reported). -/
 theorem node_conflict_reported (env : Env) (g : Gate) (s : Shred) (pk : Nat) (c : Commitment)
+    (hcons : s.indexConsumed = true)
     (hc : g.cached s.header.sliceIdx = some c) (hne : s.claimed env ≠ c) (hsig : s.sig = .signed pk (s.claimed env)) :
     (g.nodeHandle env s pk).misbehaved = true := by
   unfold Gate.nodeHandle
-  rw [hc, (cache_only_identical env s c pk).2.1 hne hsig]
+  rw [hc, (cache_only_identical env s c pk hcons).2.1 hne hsig]
 
 /-- a shred with a bad signature, or one that merely fails to match the cache without a valid signature, never
     changes the node's gate (so it cannot flag a correct leader) -/
@@ -403,6 +463,46 @@ theorem tag_not_bound_witness :
     errIs (validate toyEnv { wS with index := 4 } none 5) .invalidSignature ∧
     errIs (validate toyEnv { wS with index := 4 } (some (wOut.getD 40 default).commitment) 5) .invalidSignature ∧
     errIs (validate toyEnv wS none 6) .invalidSignature := by
+  decide +kernel
+
+/-! #### the index alias of short trees (defect D32, repaired) -/
+
+/-- the first two shards of the example slice: the leaves of a two-leaf tree a (Byzantine) leader signs -/
+def wLeaves2 : List Bytes := [(wOut.getD 0 default).shred.data, (wOut.getD 1 default).shred.data]
+def wTree2 : Tree := Tree.new (wLeaves2.map toyEnv.leafId)
+def wCommit2 : Commitment := commit wS.header wTree2.root
+/-- the genuine shred at position `i` of that two-leaf slice (1-hash path), signed by key 5 -/
+def wShort (i : Nat) : Shred := ⟨true, wS.header, i, wLeaves2.getD i [], .signed 5 wCommit2, wTree2.createProof i⟩
+/-- shred 0 relabelled as index `0 + k * 2` by a relay: same payload, same path, same derived root -/
+def wAlias (k : Nat) : Shred := { wShort 0 with index := 2 * k }
+/-- a one-leaf tree: the empty path -/
+def wTree1 : Tree := Tree.new [toyEnv.leafId (wLeaves2.getD 0 [])]
+def wOne (i : Nat) : Shred := ⟨true, wS.header, i, wLeaves2.getD 0 [], .signed 5 (commit wS.header wTree1.root), wTree1.createProof 0⟩
+
+/-- **Witness of D32 and of its repair.** The pinned `try_new` (`validateOld`) accepts shred 0 of a signed
+    two-leaf tree under the indices 2 and 62 as well (without cache under the leader key; with the slice's cached
+    commitment under any key), and the single shred of a one-leaf tree under index 63. The repaired `try_new`
+    answers `InvalidSignature` in each case, with and without cache - never `Equivocation` - and still accepts the
+    genuine shreds 0 and 1 (and the one-leaf shred at index 0). Non-vacuity of `root_binds_position` for a tree of
+    height 1: its hypotheses hold for the genuine shred. -/
+theorem index_alias_old_witness :
+    okIs (validateOld toyEnv (wAlias 1) none 5) ⟨wAlias 1, wTree2.root⟩ ∧
+    okIs (validateOld toyEnv (wAlias 31) none 5) ⟨wAlias 31, wTree2.root⟩ ∧
+    okIs (validateOld toyEnv (wAlias 1) (some wCommit2) 99) ⟨wAlias 1, wTree2.root⟩ ∧
+    okIs (validateOld toyEnv (wOne 63) none 5) ⟨wOne 63, wTree1.root⟩ ∧
+    errIs (validate toyEnv (wAlias 1) none 5) .invalidSignature ∧
+    errIs (validate toyEnv (wAlias 31) none 5) .invalidSignature ∧
+    errIs (validate toyEnv (wAlias 1) (some wCommit2) 5) .invalidSignature ∧
+    errIs (validate toyEnv (wAlias 1) (some (wOut.getD 40 default).commitment) 5) .invalidSignature ∧
+    errIs (validate toyEnv (wOne 63) none 5) .invalidSignature ∧
+    errIs (validate toyEnv (wOne 1) (some (commit wS.header wTree1.root)) 5) .invalidSignature ∧
+    okIs (validate toyEnv (wShort 0) none 5) ⟨wShort 0, wTree2.root⟩ ∧
+    okIs (validate toyEnv (wShort 1) none 5) ⟨wShort 1, wTree2.root⟩ ∧
+    okIs (validate toyEnv (wShort 1) (some wCommit2) 99) ⟨wShort 1, wTree2.root⟩ ∧
+    okIs (validate toyEnv (wOne 0) none 5) ⟨wOne 0, wTree1.root⟩ ∧
+    errIs (validate toyEnv (wShort 1) (some (wOut.getD 40 default).commitment) 5) .equivocation ∧
+    ((wShort 1).indexConsumed = true ∧ (wShort 1).sliceRoot toyEnv = (Tree.new (wLeaves2.map toyEnv.leafId)).root ∧
+      wLeaves2 ≠ [] ∧ wTree2.height = 1) := by
   decide +kernel
 
 end Witness
